@@ -7,7 +7,7 @@
 (*   [op |-> "wv"]   MdibVersion is written (inside the commit)            *)
 (*   [op |-> "rv"]   the version group is read                             *)
 (*   [op |-> "send"] a notification is put on the wire                     *)
-(*   [op |-> "begin"] thread start                                         *)
+(*   [op |-> "begin"] thread start, [op |-> "run"] continues after a release *)
 (* "mdib" is re-entrant (RLock), "tr" is a plain lock.                     *)
 (* sched is part of the state: every terminal state is one schedule; it is *)
 (* printed and replayed on the real threads.  Snapshot / InOrder are the   *)
@@ -53,7 +53,13 @@ Step(t) ==
   /\ pc' = [pc EXCEPT ![t] = @ + 1]
   /\ sched' = Append(sched, t)
 
-Next == \E t \in T : Step(t)
+\* partial-order reduction: events that commute with every event of every other thread (thread start; a writer going
+\* on after a release - the code that follows touches nothing shared) are taken at once, in a fixed order
+Pending(t) == pc[t] <= Len(Prog[t])
+Local(t) == Pending(t) /\ LET e == Prog[t][pc[t]] IN e.op = "begin" \/ (e.op = "run" /\ t \notin Readers)
+Next == IF \E t \in T : Local(t)
+        THEN Step(CHOOSE t \in T : Local(t) /\ \A u \in T : Local(u) => t <= u)
+        ELSE \E t \in T : Step(t)
 Spec == Init /\ [][Next]_vars
 
 Finished == \A t \in T : pc[t] > Len(Prog[t])
